@@ -143,3 +143,20 @@ func short(xs []string, n int) string {
 	}
 	return strings.Join(xs, " ")
 }
+
+// Others lists the entries of a snapshot that are not shards (*.zoekt at the top level) or their .meta sidecars, and
+// not the directory itself: temporary files, lock file, notes, sub-directories and what is in them. Sorted.
+func (a Snapshot) Others() []string {
+	var out []string
+	for k := range a {
+		if k == "." || k == "<absent>" {
+			continue
+		}
+		if !strings.Contains(k, "/") && (strings.HasSuffix(k, ".zoekt") || strings.HasSuffix(k, ".zoekt.meta")) {
+			continue
+		}
+		out = append(out, k)
+	}
+	sort.Strings(out)
+	return out
+}
